@@ -71,13 +71,13 @@ def mig_step(name, old_task, new_chain, dry, trace, fs, fs_iter0):
 def mig_inv(config, dry, fs, fs_loop0):
     """a dry run leaves the file system as it was; a real one writes nothing but result paths of the new chain"""
     return all_of((not dry) or fs.same_except(fs_loop0),
-                  fs.same_outside(fs_loop0, [t.data_path for t in config.new_chain.tasks.values()]))
+                  fs.same_outside(fs_loop0, [config.new_chain.tasks[n].data_path for n in config.new_chain.tasks]))
 
 
 def mig_frame(config, fs, fs0):
     """nothing but result paths of the parameter-mode chain is ever written: the source directory (and everything else)
     stays as it was"""
-    return fs.same_outside(fs0, [t.data_path for t in config.new_chain.tasks.values()])
+    return fs.same_outside(fs0, [config.new_chain.tasks[n].data_path for n in config.new_chain.tasks])
 
 
 def mig_dry(dry, fs, fs0):
@@ -93,6 +93,7 @@ CONTRACTS = [
         ensures={'target': 'mig_target', 'dry_pure': 'mig_dry', 'frame': 'mig_frame'},
         loops={0: Loop('mig_inv', vars={'name': Str, 'old_task': TaskU, 'new_task': TaskU}, fs=True, step={'copy_exact': 'mig_step'})},
         crash_invariant={}, may_raise=['AssertionError', 'FileNotFoundError', 'FileExistsError', 'SameFileError', 'KeyError'], l0=['A-fs', 'A-dict'], searchable=False,
+        feas_ms=250,
     ),
 ]
 
